@@ -1584,6 +1584,9 @@ func Contains(env envs.Environment, arg1 types.XValue, value types.XValue) types
 	if types.IsXError(value) {
 		return value
 	}
+	if xerr := types.CheckRenderSize(array, true); xerr != nil {
+		return xerr
+	}
 
 	for i := 0; i < array.Count(); i++ {
 		if types.Equals(array.Get(i), value) {
@@ -1711,6 +1714,10 @@ func Sum(env envs.Environment, array *types.XArray) types.XValue {
 //
 // @function unique(array)
 func Unique(env envs.Environment, array *types.XArray) types.XValue {
+	if xerr := types.CheckRenderSize(array, true); xerr != nil {
+		return xerr
+	}
+
 	unique := make([]types.XValue, 0, array.Count())
 	for i := 0; i < array.Count(); i++ {
 		val := array.Get(i)
@@ -1738,6 +1745,11 @@ func Unique(env envs.Environment, array *types.XArray) types.XValue {
 //
 // @function concat(array1, array2)
 func Concat(env envs.Environment, array1 *types.XArray, array2 *types.XArray) types.XValue {
+	// an array joined to itself doubles with each call
+	if array1.Count()+array2.Count() > types.MaxRenderSize {
+		return types.NewXErrorf("must produce an array of at most %d items", types.MaxRenderSize)
+	}
+
 	both := make([]types.XValue, 0, array1.Count()+array2.Count())
 
 	for i := 0; i < array1.Count(); i++ {
@@ -1870,6 +1882,9 @@ func JSON(env envs.Environment, value types.XValue) types.XValue {
 // @function format(value)
 func Format(env envs.Environment, value types.XValue) types.XValue {
 	if !types.IsNil(value) {
+		if xerr := types.CheckFormatSize(value); xerr != nil {
+			return xerr
+		}
 		return types.NewXText(value.Format(env))
 	}
 	return types.XTextEmpty
@@ -2275,6 +2290,7 @@ func ForEach(env envs.Environment, args ...types.XValue) types.XValue {
 
 	otherArgs := args[2:]
 	result := make([]types.XValue, array.Count())
+	budget := types.MaxRenderSize // for everything the function returns: each item can be as big as a value gets
 
 	for i := 0; i < array.Count(); i++ {
 		oldItem := array.Get(i)
@@ -2283,6 +2299,9 @@ func ForEach(env envs.Environment, args ...types.XValue) types.XValue {
 		newItem := function.Call(env, funcArgs)
 		if types.IsXError(newItem) {
 			return newItem
+		}
+		if !types.SpendRenderSize(newItem, true, &budget) {
+			return types.NewXErrorf("must produce values of a total size of at most %d", types.MaxRenderSize)
 		}
 		result[i] = newItem
 	}
@@ -2311,6 +2330,7 @@ func ForEachValue(env envs.Environment, args ...types.XValue) types.XValue {
 	otherArgs := args[2:]
 	props := object.Properties()
 	result := make(map[string]types.XValue, len(props))
+	budget := types.MaxRenderSize
 
 	for _, prop := range props {
 		oldItem, _ := object.Get(prop)
@@ -2319,6 +2339,9 @@ func ForEachValue(env envs.Environment, args ...types.XValue) types.XValue {
 		newItem := function.Call(env, funcArgs)
 		if types.IsXError(newItem) {
 			return newItem
+		}
+		if !types.SpendRenderSize(newItem, true, &budget) {
+			return types.NewXErrorf("must produce values of a total size of at most %d", types.MaxRenderSize)
 		}
 		result[prop] = newItem
 	}
